@@ -1,6 +1,7 @@
 package symex
 
 import (
+	"sort"
 	"fmt"
 	"go/ast"
 	"go/printer"
@@ -269,6 +270,18 @@ func (e *Engine) verifyRegion(fn *ssa.Function, fc *contract.Func, ri *regionInf
 			}
 		}
 	}
+	// bind the clause's implicit variable (typeswitch binding) before the entry values are named
+	ctx.region = ri
+	startIdx := 0
+	for startIdx < len(ri.entry.Instrs) {
+		switch ri.entry.Instrs[startIdx].(type) {
+		case *ssa.Alloc, *ssa.Store, *ssa.DebugRef:
+			e.execSimple(st, ri.entry.Instrs[startIdx])
+			startIdx++
+			continue
+		}
+		break
+	}
 	env := e.funcEnv(st)
 	for _, l := range ri.r.Lets {
 		v := e.eval(env, l.Expr)
@@ -281,13 +294,51 @@ func (e *Engine) verifyRegion(fn *ssa.Function, fc *contract.Func, ri *regionInf
 	for _, u := range ri.r.Uses {
 		st.assume(e.evalBool(env, u))
 	}
+	preOnly := len(ri.r.Asserts) == 0
+	obligStart := len(e.Obligs)
+	if preOnly {
+		// a region without assertions exists only to check the entry assumptions of its child regions
+		defer func() {
+			kept := e.Obligs[:obligStart]
+			for _, o := range e.Obligs[obligStart:] {
+				if o.Kind == "region-pre" {
+					kept = append(kept, o)
+				}
+			}
+			e.Obligs = kept
+		}()
+	}
 	st.entry = st.clone()
 	st.label("region " + ri.r.Name)
+	// loop contracts of the region: numbered in source order among the loops whose header lies inside
+	var hs []*loopInfo
+	for h, li := range ctx.loops {
+		if ri.blocks[h] {
+			hs = append(hs, li)
+		}
+	}
+	sort.Slice(hs, func(i, j int) bool { return hs[i].ordinal < hs[j].ordinal })
+	for k, li := range hs {
+		li.lc = ri.r.Loops[k]
+		li.regionOrd = k
+	}
 	ctx.region = ri
 	ctx.children = children
 	defer func() { ctx.region, ctx.children = nil, nil }()
-	outs := e.execBlock(st, ri.entry, 0)
+	outs := e.execInstrs(st, ri.entry, startIdx)
+	reached := map[*regionInfo]bool{}
+	defer func() {
+		for _, c := range children {
+			if !reached[c] && len(c.r.Assumes) > 0 {
+				e.Obligs = append(e.Obligs, &Oblig{Name: funcDisplay(fn) + "/region " + ri.r.Name + "/enter " + c.r.Name + "/unreached", Kind: "region-pre", Props: regionProps(c.r), Func: funcDisplay(fn),
+					Goal: smt.False, Note: "no path of the parent region reaches the entry of this region: its assumptions are unchecked"})
+			}
+		}
+	}()
 	for _, o := range outs {
+		if o.child != nil {
+			reached[o.child] = true
+		}
 		ctx.exits++
 		if o.panics {
 			continue
